@@ -35,10 +35,25 @@ type liveReloadConn struct {
 	done    chan struct{}
 }
 
+// devServerPlan is a loaded source file that is ready to be served: everything
+// that can fail while a new version is being brought up has already happened.
+type devServerPlan struct {
+	handler     http.Handler
+	useCompiler bool
+}
+
 // startServer starts or restarts the server
 func (m *hotReloadManager) startServer() error {
 	m.mu.Lock()
 	defer m.mu.Unlock()
+
+	// Load the new source before touching the running server: a file that
+	// cannot be read, parsed, compiled or wired up must leave the previous
+	// version listening.
+	plan, err := m.prepareDevServer()
+	if err != nil {
+		return err
+	}
 
 	// Stop existing server if running
 	if m.server != nil {
@@ -49,17 +64,32 @@ func (m *hotReloadManager) startServer() error {
 	}
 
 	// Start dev server with live reload support
-	srv, err := m.startDevServerInternal()
-	if err != nil {
-		return err
-	}
-
-	m.server = srv
+	m.server = m.listenDevServer(plan)
 	return nil
 }
 
 // startDevServerInternal starts the development server with live reload support
 func (m *hotReloadManager) startDevServerInternal() (*http.Server, error) {
+	plan, err := m.prepareDevServer()
+	if err != nil {
+		return nil, err
+	}
+	return m.listenDevServer(plan), nil
+}
+
+// prepareDevServer reads, parses and compiles the source file and builds the
+// HTTP handler for it. It does not touch the running server.
+func (m *hotReloadManager) prepareDevServer() (plan *devServerPlan, err error) {
+	// setupRoutes replaces the package-level type table that compiled routes
+	// validate request bodies against. If this source does not make it, the
+	// server that keeps running keeps its own table.
+	prevTypeDefs := compiledTypeDefs
+	defer func() {
+		if err != nil {
+			compiledTypeDefs = prevTypeDefs
+		}
+	}()
+
 	// Read source file
 	source, err := os.ReadFile(m.filePath)
 	if err != nil {
@@ -106,9 +136,14 @@ func (m *hotReloadManager) startDevServerInternal() (*http.Server, error) {
 		return nil, err
 	}
 
+	return &devServerPlan{handler: loggingMiddleware(mux), useCompiler: useCompiler}, nil
+}
+
+// listenDevServer puts a prepared version on the port.
+func (m *hotReloadManager) listenDevServer(plan *devServerPlan) *http.Server {
 	srv := &http.Server{
 		Addr:           listenAddr(m.port),
-		Handler:        loggingMiddleware(mux),
+		Handler:        plan.handler,
 		ReadTimeout:    15 * time.Second,
 		WriteTimeout:   15 * time.Second,
 		IdleTimeout:    60 * time.Second,
@@ -118,7 +153,7 @@ func (m *hotReloadManager) startDevServerInternal() (*http.Server, error) {
 	// Start server in background
 	go func() {
 		mode := "compiled"
-		if !useCompiler {
+		if !plan.useCompiler {
 			mode = "interpreted"
 		}
 		printSuccess(fmt.Sprintf("Dev server listening on http://%s (%s mode)", listenAddr(m.port), mode))
@@ -132,7 +167,7 @@ func (m *hotReloadManager) startDevServerInternal() (*http.Server, error) {
 	// Give server time to start
 	time.Sleep(100 * time.Millisecond)
 
-	return srv, nil
+	return srv
 }
 
 // handleLiveReload handles Server-Sent Events for live reload
